@@ -147,9 +147,12 @@ def random_case(draw, tier):
     maxdim = 12
     if tier == "thorough" and draw(st.integers(0, 9)) == 0:
         maxdim = 40
-    if draw(st.integers(0, 5)) == 0:
+    k_ = draw(st.integers(0, 7))
+    if k_ == 0:
         from vf.props.c06 import convergent_grid
         c = draw(convergent_grid())
+    elif k_ == 1:
+        c = draw(G.serpentine_grid())
     else:
         c = draw(G.random_grid(maxdim, kinds=("forest", "forest", "forest",
                                               "forest", "majority",
